@@ -101,6 +101,9 @@ pub struct History {
     /// events are a snapshot taken `lag` ADDED/MODIFIED events before the head, followed by those
     /// events, so a server can be reported more than once before the initial-events-end bookmark
     pub stream_lag: Option<usize>,
+    /// many watch errors in one adapter life: the watcher's own back-off doubles with each of them
+    /// (0.8 s, 1.6 s ... 12.8 s for the fifth), so every step gets 30 s to settle instead of 10
+    pub patient: bool,
     pub steps: Vec<Step>,
 }
 
@@ -131,6 +134,7 @@ impl History {
             "initial": self.initial,
             "pre_events": self.pre_events.iter().map(|e| e.to_json()).collect::<Vec<_>>(),
             "stream_lag": self.stream_lag,
+            "patient": self.patient,
             "steps": steps,
         })
     }
@@ -180,6 +184,7 @@ impl History {
             initial: v.get("initial")?.as_array()?.clone(),
             pre_events: v.get("pre_events").and_then(|x| x.as_array()).map(|a| a.iter().filter_map(Ev::from_json).collect()).unwrap_or_default(),
             stream_lag: v.get("stream_lag").and_then(|x| x.as_u64()).map(|x| x as usize),
+            patient: v.get("patient").and_then(|x| x.as_bool()).unwrap_or(false),
             steps,
         })
     }
@@ -816,6 +821,31 @@ fn fault_errors(kind: usize) -> usize {
 
 /// Generates history number `index` of a run. `slot0` = global index of its first fault slot; fault
 /// kinds and offline change classes are enumerated round-robin over the slots of the whole run.
+/// A long life: six times the watch ends with `410 Gone` (an error and a re-list each), with an
+/// ordinary event after every one of them. Whatever the watcher has been through, it keeps watching.
+pub fn generate_long_life(seed: u64, index: u64) -> History {
+    let mut rng = Rng::stream(seed, index ^ 0x10f3_0000);
+    let tag = format!("s{seed}-life{index}");
+    let ns = format!("vp-{tag}");
+    let mut g = Generator::new(&mut rng, vec![ns.clone()], None);
+    let mut initial = Vec::new();
+    for _ in 0..3 {
+        if let Some(ev) = g.ev_add_offered(false) {
+            initial.push(ev.object);
+        }
+    }
+    let mut steps = Vec::new();
+    for k in 0..6 {
+        let (class_used, offline) = g.change(k % CHANGE_CLASSES.len());
+        steps.push(Step::Fault(Fault { kind_label: FAULT_KINDS[3].to_string(), change_label: CHANGE_CLASSES[class_used].to_string(), sever: Sever::Gone, resume_gone: false, offline, list_fail: None }));
+        steps.push(Step::Event(g.ev_random()));
+        if let Some(ev) = g.ev_add_offered(false) {
+            steps.push(Step::Event(ev));
+        }
+    }
+    History { id: index, namespace: Some(ns), label_selector: None, page_size: Some(500), initial, pre_events: vec![], stream_lag: None, patient: true, steps }
+}
+
 pub fn generate(seed: u64, index: u64, max_steps: usize, faults: usize) -> History {
     let mut rng = Rng::stream(seed, index);
     let tag = format!("s{seed}-h{index}");
@@ -968,6 +998,7 @@ pub fn generate(seed: u64, index: u64, max_steps: usize, faults: usize) -> Histo
         initial,
         pre_events,
         stream_lag,
+        patient: false,
         steps,
     }
 }
